@@ -288,6 +288,7 @@ type instantiator struct {
 	boundMap    map[boundParam]int
 	instances   []*instance
 	instanceMap *container.IntSliceMap[*instance] // [nonterm, boundParam #1, ...] ->
+	sets        map[*TokenSet]*TokenSet           // already instantiated sets
 }
 
 func (i *instantiator) resolveInstance(context *instance, nonterm int, args []Arg) *instance {
@@ -334,7 +335,15 @@ func (i *instantiator) doSet(set *TokenSet) *TokenSet {
 		}
 		return set
 	}
+	// Note: named sets can (incorrectly) refer to themselves, keep the cycles intact.
+	if done, ok := i.sets[set]; ok {
+		return done
+	}
+	if i.sets == nil {
+		i.sets = make(map[*TokenSet]*TokenSet)
+	}
 	ret := *set
+	i.sets[set] = &ret
 	ret.Sub = make([]*TokenSet, 0, len(set.Sub))
 	for _, sub := range set.Sub {
 		ret.Sub = append(ret.Sub, i.doSet(sub))
